@@ -207,6 +207,9 @@ func (v *Verifier) evalCall(fr *Frame, st *State, x *ast.CallExpr) Val {
 			a := v.evalSpec(fr, st, x.Args[0]).(SliceVal)
 			b := v.evalSpec(fr, st, x.Args[1]).(SliceVal)
 			return Scalar{c.Eq(a.Ref, b.Ref), types.Typ[types.Bool]}
+		case "offsetOf": // offsetOf(s): index of s[0] in its backing array
+			a := v.evalSpec(fr, st, x.Args[0]).(SliceVal)
+			return Scalar{a.Off, types.Typ[types.Int]}
 		case "released": // released(x): the array of slice x / the object x points to has been handed to a sync.Pool
 			v.needIntIdx(x.Pos(), "released")
 			var ref *Term
@@ -515,11 +518,23 @@ func (v *Verifier) evalQuant(fr *Frame, st *State, x *ast.CallExpr, forall bool)
 		panic(unsupportedf(x.Pos(), "too many Bool-quantified variables"))
 	}
 	var parts []*Term
+	pc0 := len(st.pc)
 	for k := 0; k < 1<<len(boolVars); k++ {
 		for i, q := range boolVars {
 			fr.ghost[q.name] = Scalar{c.Bool((k>>i)&1 == 1), types.Typ[types.Bool]}
 		}
 		parts = append(parts, v.asBool(v.evalSpec(fr, st, x.Args[n]), x.Pos()))
+	}
+	// Facts assumed while the body was evaluated (results of pure calls by contract) under a guard
+	// that mentions a bound variable must not escape the quantifier: drop them (only weakens).
+	if len(st.pc) > pc0 {
+		kept := st.pc[:pc0:pc0]
+		for _, t := range st.pc[pc0:] {
+			if !t.open {
+				kept = append(kept, t)
+			}
+		}
+		st.pc = kept
 	}
 	if forall {
 		body := c.And(parts...)
